@@ -93,6 +93,20 @@ CLAIMED = {
         ref="DESIGN.md §6 C01",
         technique="Lean 4 proof for F1 (resolver soundness by induction on fuel, export/read round trip) + declarative-semantics differential correspondence",
     ),
+    "C06": dict(
+        text="Proved in Lean: the exporter's depth-first module traversal lists every module exactly once and after everything it "
+        "instantiates, for any module DAG, sharing and list of tops (export_order); connection targets produced by resolver + "
+        "exporter (fragment F1) carry exactly the connection's width and stay inside their signals (target_width, C03 "
+        "exported_bits_in_range). The full closure predicate WFpkg (unique names, ports name declared signals, references resolve to "
+        "earlier modules / declared external modules / primitives of the regenerated table, each target port connected exactly once, "
+        "targets declared, in range and of the port's width) is a Lean definition *executed* on every package the real code returns: "
+        "generated designs, the repository's examples, Series/MosStack/Wrapper over parameter ranges, a PDK-compiled design; plus "
+        "acceptance by from_proto and the spice and spectre netlisters.",
+        note="That elaborate∘export establishes WFpkg for every design is proved for the traversal order and the connection targets only; "
+        "the remaining clauses rest on the executed predicate. Primitive port table regenerated from /repo each run.",
+        ref="DESIGN.md §6 C06",
+        technique="Lean 4 proof (traversal invariant by induction; width/range from C03/C01 lemmas) + executed Lean predicate on real packages",
+    ),
 }
 NOT_YET = {}
 
